@@ -446,6 +446,16 @@ fn swap_parts(ctx: &Ctx) -> Option<(usize, AssetAmt, Option<AddrRef>, Vec<Fund>,
     }
 }
 
+/// who pays the offer of a direct swap: the sender, or the account whose allowance is spent
+fn payer_of(ctx: &Ctx) -> String {
+    if let Op::SwapHook { from: Some(o), .. } = &ctx.ev.op {
+        if let Some(a) = ctx.model.addr(o) {
+            return a;
+        }
+    }
+    ctx.sender.to_string()
+}
+
 type DeltaMap = BTreeMap<(String, String), Z>;
 
 fn add(m: &mut DeltaMap, asset: &str, account: &str, v: Z) {
@@ -514,7 +524,12 @@ fn c02_case(ctx: &Ctx, cov: &mut Cover) {
             } else {
                 "foreign"
             };
-            format!("hook-{}|sent-{}", cls, rel(*sent))
+            format!(
+                "hook-{}{}|sent-{}",
+                cls,
+                if matches!(&ctx.ev.op, Op::SwapHook { from: Some(_), .. }) { "-sendfrom" } else { "" },
+                rel(*sent)
+            )
         }
     };
     let to_class = match &to {
@@ -593,10 +608,14 @@ fn c02_settlement(ctx: &Ctx, cov: &mut Cover) {
             ),
         );
     }
-    if ctx.sender != p.addr {
+    let payer = payer_of(ctx);
+    if payer != ctx.sender {
+        cov.reach("C02.allowance_based_swap_succeeded");
+    }
+    if payer != p.addr {
         cov.eval("C02", "b");
-        let fall = Z::diff(ctx.view.pre(&ko, ctx.sender), ctx.view.post(&ko, ctx.sender));
-        let expect = z(v) - if receiver == ctx.sender && ka == ko { z(nret) } else { Z::zero() };
+        let fall = Z::diff(ctx.view.pre(&ko, &payer), ctx.view.post(&ko, &payer));
+        let expect = z(v) - if receiver == payer && ka == ko { z(nret) } else { Z::zero() };
         if fall != expect {
             cov.violate(
                 "C02",
@@ -604,8 +623,8 @@ fn c02_settlement(ctx: &Ctx, cov: &mut Cover) {
                 "offer-not-delivered-by-sender",
                 ctx.ev.seq,
                 format!(
-                    "sender {} balance of {} fell by {} but the trade was priced as offering {}",
-                    ctx.sender, ko, fall, v
+                    "payer {} balance of {} fell by {} but the trade was priced as offering {}",
+                    payer, ko, fall, v
                 ),
             );
         }
@@ -625,7 +644,7 @@ fn c02_settlement(ctx: &Ctx, cov: &mut Cover) {
     }
     // d/e) full expected delta map
     let mut exp = DeltaMap::new();
-    add(&mut exp, &ko, ctx.sender, -z(v));
+    add(&mut exp, &ko, &payer, -z(v));
     add(&mut exp, &ko, &p.addr, z(v));
     add(&mut exp, &ka, &p.addr, -z(nret));
     add(&mut exp, &ka, &receiver, z(nret));
@@ -1149,6 +1168,12 @@ fn c07_third_parties(ctx: &Ctx, cov: &mut Cover) {
             Op::SwapExec { pair, to, .. } | Op::SwapHook { pair, to, .. } => {
                 push_pair(allowed, *pair);
                 receivers.push(recv(to));
+                if let Op::SwapHook { from: Some(o), .. } = op {
+                    // the account whose allowance the sender spends
+                    if let Some(a) = m.addr(o) {
+                        allowed.push(a);
+                    }
+                }
             }
             Op::RouteExec { hops, to, .. } | Op::RouteHook { hops, to, .. } => {
                 allowed.push(m.router.clone());
